@@ -184,6 +184,15 @@ func (nd *Node) Execute(m *Msg, faultKind, faultK int) *Exec {
 		acntDst = hd
 		ex.HasDst = true
 	}
+	if nd.Cfg.TypedNilAccounts {
+		// "no account on this shard" as a handle whose pointer is nil
+		if hs == nil {
+			acntSnd = (*Handle)(nil)
+		}
+		if hd == nil {
+			acntDst = (*Handle)(nil)
+		}
+	}
 
 	ex.Pre = spec.ShardState(nd.Store.Accts).Clone()
 	snap := nd.Store.JournalLen()
